@@ -63,6 +63,8 @@ func c14ErrClass(err error) string {
 			return "E:noncanon"
 		case me.Func == "ReadVarString":
 			return "E:strtoolong"
+		case me.Func == "ReadVarBytes":
+			return "E:bytestoolong"
 		case me.Func == "MsgVersion":
 			return "E:ualong"
 		case strings.HasPrefix(d, "too many"):
@@ -490,7 +492,7 @@ func runC14(c *Ctx) error {
 		}
 	}
 	// 3. framed round trips (the model hashes: keep most payloads small)
-	nF := c.Pick(100, 1500)
+	nF := c.Pick(100, 1200)
 	for _, kind := range c14Modelled {
 		for i := 0; i < nF; i++ {
 			pver := g.pver()
